@@ -37,6 +37,8 @@ Fixpoint multi_union (t : xty) : bool :=
   | XCont _ ts => existsb multi_union ts
   end.
 
+Definition cfg_eqb : list val -> list val -> bool := list_eqb veq.
+Definition cfg_eqb_text : list val -> list val -> bool := list_eqb (fun a b => veq (strip_meta a) (strip_meta b)).
 (* a Set[...] somewhere in the type *)
 Fixpoint has_set (t : xty) : bool :=
   match t with
@@ -48,7 +50,7 @@ Fixpoint has_set (t : xty) : bool :=
 (* the dump leg fails ONLY on the byte-identical-text clause: the configuration read back is equal *)
 Definition only_text_differs (first reparsed : outcome (list val)) (text1 text2 : option str) : bool :=
   match first, text1, text2 with
-  | Accepted w, Some _, Some _ => outcome_eqb (list_eqb veq) reparsed (Accepted w)
+  | Accepted w, Some _, Some _ => outcome_eqb cfg_eqb_text reparsed (Accepted w)
   | _, _, _ => false
   end.
 
@@ -58,7 +60,6 @@ Inductive case :=
 | XCase (sk : list xty) (first : outcome (list val)) (valid : bool) (again : list (outcome (list val)))
         (reparsed : outcome (list val)) (text1 text2 : option str).
 
-Definition cfg_eqb : list val -> list val -> bool := list_eqb veq.
 Definition to_outcome (r : option (list val)) : outcome (list val) :=
   match r with Some w => Accepted w | None => Rejected end.
 
@@ -99,7 +100,7 @@ Definition judge1 (c : case) : verdict :=
                             && only_text_differs first reparsed text1 text2 then 4%N
                     else 0%N;
          v_spec := fixed_point_spec cfg_eqb first valid again
-                   && dump_spec cfg_eqb first reparsed text1 text2 |}
+                   && dump_spec cfg_eqb_text first reparsed text1 text2 |}
   end.
 
 Definition judge (cs : list case) := judge_all judge1 cs.
